@@ -15,6 +15,9 @@ harness and rendered as a Gallina `case` term):
   [8, source, dest_role, cid?]            is_ibgp_learned, ibgp_split_horizon_suppress, rs_isolation_suppress
   [9, ctx, emax, raddr, cid?, change, emap, probe]   process_nlri_change with a recording sink
   [10, ctx, router_id, cid?, attrs]       run_select's is_as_loop filter + PeerSession::rx_update
+  [11, ctx, emax, raddr, cid?, source, nh?, attrs]   Table::insert + export, then Table::restale_llgr + export
+  [12, ..as 9.., policy]                  process_nlri_change with a real one-statement table::PolicyAssignment
+                                          policy = [nh_action?, med_action?, statement disposition, default disposition]
 with attr = [code, flags, kind(0 Val,1 Bin,2 Opaque), payload], ip = [0|1, bytes],
 nexthop = [0,a4] | [1,a16] | [2,a16,ll16], ctx = [role, local_asn, local_addr, link?, confed_id],
 source = [0] local | [1] kernel | [2, raddr, rasn, lasn, rid, role, llgr_stale],
@@ -193,6 +196,16 @@ def case_coq(c):
                                                   c_emap(c[6]), cbytes(c[7]))
     elif t == 10:
         body = 'CRxLoop %s %d %s %s' % (c_ctx(c[1]), c[2], copt(c[3], c_num), c_attrs(c[4]))
+    elif t == 12:
+        pol = c[8]
+        def c_nha(a):
+            return ['(NaAddress %s)' % c_ip(a[1]) if a[0] == 0 else None, 'NaSelf', 'NaPeer', 'NaUnchanged'][a[0]] if a[0] else '(NaAddress %s)' % c_ip(a[1])
+        def c_med(a):
+            return '(%s (%d)%%Z)' % ('MedMod' if a[0] == 0 else 'MedReplace', a[1])
+        dn = ['DPass', 'DAccept', 'DReject']
+        body = 'CProcessPol %s %d %s %s %s %s %s (Build_stmt %s %s %s) %s' % (
+            c_ctx(c[1]), c[2], c_ip(c[3]), copt(c[4], c_num), c_change(c[5]), c_emap(c[6]), cbytes(c[7]),
+            copt(pol[0], c_nha), copt(pol[1], c_med), dn[pol[2]], dn[pol[3]])
     elif t == 11:
         body = 'CLlgrScenario %s %d %s %s %s %s %s' % (c_ctx(c[1]), c[2], c_ip(c[3]), copt(c[4], c_num),
                                                        c_src(c[5])[len('(SrcPeer '):-1], copt(c[6], c_nh), c_attrs(c[7]))
@@ -600,6 +613,19 @@ class Prop:
         # --- process_nlri_change: random histories (several paths, export map pre-state, echo collisions)
         for _ in range(500 * scale):
             cases.append(self.gen_process(rng))
+        # --- process_nlri_change with a real export policy (next-hop / MED actions, reject)
+        for s_, d, cid, confed in self.matrix():
+            if confed:
+                continue
+            c9 = self.gen_process(rng, d)
+            src = list(s_)
+            c9[5][5] = [[1, src, self.gen_nh(rng), self.gen_attrs(rng, 'wire')]] + c9[5][5][:1]
+            if len(c9[5][5]) == 2 and c9[5][5][1][0] == 1:
+                c9[5][5][1][0] = 2
+            cases.append([12] + c9[1:] + [self.gen_policy(rng)])
+        for _ in range(250 * scale):
+            c9 = self.gen_process(rng)
+            cases.append([12] + c9[1:] + [self.gen_policy(rng)])
         # --- the LLGR period begins for the source of an advertised route
         for s_, d, cid, confed in self.matrix():
             if s_[0] != 2 or confed:
@@ -608,7 +634,36 @@ class Prop:
                 src = list(s_); src[6] = 0
                 cases.append([11, self.gen_ctx(rng, d, 0), emax, self.ADDR4[0], cid, src, [[0, [10, 0, 0, 9]]],
                               self.gen_attrs(rng, 'wire')])
-        # --- receive side
+        # --- receive side: a stream aimed at each loop test (one loop kind per case, at
+        # a random position of the path / cluster list), and its near misses
+        for role in ROLES:
+            for _ in range(24 * scale):
+                x = self.gen_ctx(rng, role, rng.choice([0, CONFED_ID]))
+                cid = [0x01020304] if role in (IBGP, RRC) else []
+                rid = 0x01000001
+                segs = [(rng.choice([1, 2, 3, 4]), [rng.choice([65002, 65003, 64512]) for _ in range(rng.choice([1, 2, 4]))])
+                        for _ in range(rng.choice([1, 2, 3]))]
+                clist = [rng.choice([0x0a0a0a0a, 0x01000001, 0x02020202]) for _ in range(rng.choice([0, 1, 3]))]
+                orig = rng.choice([None, 0x0a000001, 0x01000002])
+                kind = rng.choice(['as', 'confed', 'orig', 'cluster', 'near'])
+                if kind in ('as', 'confed'):
+                    k = rng.randrange(len(segs))
+                    asn = LOCAL_AS if kind == 'as' else CONFED_ID
+                    segs[k][1].insert(rng.randrange(len(segs[k][1]) + 1), asn)
+                elif kind == 'orig':
+                    orig = rid
+                elif kind == 'cluster':
+                    clist.insert(rng.randrange(len(clist) + 1), 0x01020304)
+                else:
+                    clist = [0x01020305, 0x04030201][:rng.choice([1, 2])]
+                    orig = rid ^ 1
+                attrs = [[ORIGIN, 0x40, 0, 0], [AS_PATH, 0x40, 1, enc_path(segs)]]
+                if orig is not None:
+                    attrs.append([ORIGINATOR_ID, 0x80, 0, orig])
+                if clist or rng.random() < 0.3:
+                    attrs.append([CLUSTER_LIST, 0x80, 1, [b for i in clist for b in be32(i)]])
+                cases.append([10, x, rid, cid, attrs])
+                cases.append([2, attrs, x[1], x[4]])
         for role in ROLES:
             for _ in range(40 * scale):
                 mode = 'any' if rng.random() < 0.15 else 'wire'
@@ -617,8 +672,27 @@ class Prop:
                 cases.append([10, x, 0x01000001, cid, self.gen_attrs(rng, mode)])
         return cases
 
-    def gen_process(self, rng):
-        d = rng.choice(ROLES)
+    def gen_policy(self, rng):
+        nh = []
+        k = rng.random()
+        if k < 0.2:
+            nh = [[0, rng.choice(self.ADDR4[:3] + self.ADDR6[:2])]]
+        elif k < 0.35:
+            nh = [[1]]
+        elif k < 0.5:
+            nh = [[2]]
+        elif k < 0.7:
+            nh = [[3]]
+        med = []
+        k = rng.random()
+        if k < 0.3:
+            med = [[1, rng.choice([0, 5, 77, 4294967295, 4294967296, -3])]]
+        elif k < 0.6:
+            med = [[0, rng.choice([1, 20, -5, -20, 4294967295, 8589934592])]]
+        return [nh, med, rng.choice([0, 0, 1, 1, 1, 2]), rng.choice([1, 1, 1, 0, 2])]
+
+    def gen_process(self, rng, d=None):
+        d = rng.choice(ROLES) if d is None else d
         x = self.gen_ctx(rng, d)
         emax = rng.choice([1, 1, 2, 3, 255])
         raddr = rng.choice(self.ADDR4[:3] + self.ADDR6[:2])
@@ -663,12 +737,15 @@ class Prop:
             lists = [c[2]]
         elif t == 10 and c[1][0] in (IBGP, RRC):
             lists = [c[4]]
-        elif t == 9 and c[1][0] in (IBGP, RRC):
+        elif t in (9, 12) and c[1][0] in (IBGP, RRC):
             lists = [p[3] for p in c[5][5]]
         elif t == 11 and c[1][0] in (IBGP, RRC):
             lists = [c[7]]
         else:
             return False
+        if t == 12 and c[8][1]:
+            # the med action re-appends MED at the end of the vector before LOCAL_PREF is injected
+            return any(find(l, LOCAL_PREF) is None for l in lists)
         return any(find(l, LOCAL_PREF) is None and not partitioned_lt5(l) for l in lists)
 
     def canon(self, case, obs):
@@ -680,7 +757,7 @@ class Prop:
             return srt(obs)
         if t == 10:
             return [srt(o) for o in obs]
-        if t == 9:
+        if t in (9, 12):
             ops = [[o[0], o[1], o[2], o[3], srt(o[4]), o[5]] if o[0] == 1 else o for o in obs[0]]
             return [ops, obs[1]]
         if t == 11:
@@ -763,7 +840,7 @@ class Prop:
             if (role == RS) != (d == RS) and obs[2] != 1:
                 return 'route-server boundary not enforced'
             return None
-        if t == 9:
+        if t in (9, 12):
             return self.oracle_process(c, obs)
         if t == 11:
             if obs == [-1]:
@@ -825,12 +902,37 @@ class Prop:
                 return what + ': non-client iBGP route advertised to a non-client iBGP peer'
             if (srole == RS) != (d == RS):
                 return what + ': route crossed the route-server boundary'
-            why = spec_nexthop(x, p[2], nh_out, fam, is_local, what)
-            if why:
-                return why
+            pol = c[8] if c[0] == 12 else None
+            if pol is not None and (pol[2] == 2 or (pol[2] == 0 and pol[3] == 2)):
+                return what + ': route advertised although the export policy rejects it'
+            if pol is not None and pol[0]:
+                # a next-hop action decides: the pre-policy default must not clobber it
+                a = pol[0][0]
+                if a[0] == 0:
+                    want = [[0 if a[1][0] == 0 else 1, a[1][1]]]
+                elif a[0] == 1:
+                    want = [[0 if x[2][0] == 0 else 1, x[2][1]]]
+                elif a[0] == 2:
+                    want = [[0 if raddr[0] == 0 else 1, raddr[1]]]
+                else:
+                    want = p[2] if p[2] else None
+                if want is not None and nh_out != want:
+                    return what + ': export-policy next-hop action not honoured'
+            else:
+                why = spec_nexthop(x, p[2], nh_out, fam, is_local, what)
+                if why:
+                    return why
             if not attrs_wf(p[3]):
                 continue
-            if d == EBGP and find(out, MED) is not None:
+            if pol is not None and pol[1]:
+                m = find(out, MED)
+                if d == EBGP:
+                    # the received MED is removed first: the action starts from nothing
+                    a = pol[1][0]
+                    want = max(0, min(4294967295, a[1]))
+                    if m is None or m[2:] != [0, want]:
+                        return what + ': MED towards an eBGP peer is not the one set by export policy on a cleared MED'
+            elif d == EBGP and find(out, MED) is not None:
                 return what + ': received MED sent to an eBGP peer'
             why = spec_attrs_for_dest(x, p[3], out, what)
             if why:
@@ -874,13 +976,13 @@ class Prop:
             return (t, self._shape(c[1]), self._shape(obs)) if obs != c[1] else None
         if t == 8:
             return (t, c[1][0], c[1][5] if c[1][0] == 2 else -1, c[2], bool(c[3]), tuple(obs)) if (obs[1] or obs[2]) else None
-        if t == 9:
+        if t in (9, 12):
             ch = c[5]
             srcs = tuple((p[1][0], p[1][5] if p[1][0] == 2 else -1) for p in ch[5])
             ops = tuple((o[0], self._shape(o[4]) if o[0] == 1 else ()) for o in obs[0])
             if not ch[5] and not obs[0]:
                 return None
-            return (t, c[1][0], c[1][4] != 0, min(c[2], 2), bool(c[4]), srcs, ops)
+            return (t, c[1][0], c[1][4] != 0, min(c[2], 2), bool(c[4]), srcs, ops, json.dumps(c[8]) if t == 12 else '')
         if t == 10:
             return (t, c[1][0], bool(c[3]), obs == [], self._shape(c[4]))
         if t == 11:
@@ -889,13 +991,13 @@ class Prop:
 
     def classify(self, c, obs):
         names = ['prepend', 'strip_confed', 'is_as_loop', 'export_attrs', 'pre_policy_defaults', 'rr_reflect',
-                 'llgr_stale', 'inject_local_pref', 'suppress_predicates', 'process_nlri_change', 'rx_update', 'llgr_scenario']
+                 'llgr_stale', 'inject_local_pref', 'suppress_predicates', 'process_nlri_change', 'rx_update', 'llgr_scenario', 'process_nlri_change_policy']
         tags = ['op_' + names[c[0]]]
         if obs == [-1]:
             tags.append('panic')
-        if c[0] in (3, 4, 9, 10, 11):
+        if c[0] in (3, 4, 9, 10, 11, 12):
             tags.append('dest_' + ROLE_NAMES[c[1][0]])
-        if c[0] == 9 and obs != [-1]:
+        if c[0] in (9, 12) and obs != [-1]:
             tags.append('emax_%s' % ('1' if c[2] == 1 else 'addpath'))
             tags.append('reach_%d' % min(3, sum(1 for o in obs[0] if o[0] == 1)))
             if any(o[0] == 0 for o in obs[0]): tags.append('withdraw')
